@@ -614,6 +614,19 @@ class Interp:
             if not aug:
                 self.emit("setattr", stmt, live, frame, base=base,
                           name=target.attr, value=v)
+            c_ = self.class_of(base, frame)
+            st_ = None
+            for k_ in (self.prog.mro(c_) if c_ is not None else ()):
+                if target.attr in k_.setters:
+                    st_ = k_.setters[target.attr]
+                    break
+            if st_ is not None and frame.depth < self.max_depth + 1 and \
+                    st_.qualname not in self.stack and len(st_.params) == 2:
+                # an assignment to a property with a setter runs the setter
+                self.inline_call(st_, {st_.params[0]: base,
+                                       st_.params[1]: v}, frame, live, stmt,
+                                 c_)
+                return
             self._store_attr(base, target.attr, v, live)
         elif isinstance(target, ast.Subscript):
             base = self.eval(target.value, frame, live)
